@@ -407,6 +407,40 @@ def main_(seed, nscen):
                     report["problems"].append(dict(where, kind="unpublished_bytes", what="after concurrent writes the file reads bytes nobody published"))
                     return
                 del winner
+            # ------------------------------------------------------------------ one client, many operations at once (C13)
+            install(g, si, snaps[newest])
+            cnm = new_nodemaker(g)
+            h1, h2 = cnm.create_from_cap(wcap), cnm.create_from_cap(wcap)
+            if h1 is not h2:
+                report["problems"].append(dict(desc, kind="two_nodes_one_cap", what="one client built two different node objects for the same write cap"))
+                return
+            tags = [b"[op%d]" % i for i in range(rng.randint(2, 5))]
+
+            def appender(tag):
+                def modifier(old, servermap, first_time):
+                    return old + tag
+                return modifier
+            ops = []
+            for i, tag in enumerate(tags):
+                handle = h1 if i % 2 == 0 else h2
+                ops.append(with_timeout(handle.modify(appender(tag))))
+                if rng.random() < 0.5:
+                    ops.append(with_timeout(handle.download_best_version()))
+            results = []
+            for o in ops:
+                r = yield o
+                results.append(r)
+            report["publishes"] += len(tags)
+            if any(st_ != "done" for st_, _ in results):
+                bad = [(st_, getattr(r_, "type", None) and r_.type.__name__) for st_, r_ in results if st_ != "done"]
+                report["problems"].append(dict(desc, kind="lost_update", what="operations issued at once on one node did not all succeed: %r" % (bad[:3],)))
+                return
+            st2, got = yield with_timeout(new_nodemaker(g).create_from_cap(rcap).download_best_version())
+            base = contents[newest]
+            ok = st2 == "done" and got.startswith(base) and len(got) == len(base) + sum(len(t_) for t_ in tags) and all(got.count(t_) == 1 for t_ in tags)
+            if not ok:
+                report["problems"].append(dict(desc, kind="lost_update", what="%d modify() calls issued at once on one node: the file ends as %r, expected the old contents followed by each of %r once" % (len(tags), got[-60:] if st2 == "done" else st2, tags)))
+                return
             report["scenarios"] += 1
         finally:
             g.cleanup()
@@ -428,13 +462,14 @@ def main_(seed, nscen):
 BOUND = ("mutable-file scenarios on the real in-process grid (real StorageServer slots on disk, real NodeMaker/ServermapUpdater/Publish/Retrieve/checker/repairer): SDMF and MDMF (1 byte .. 2 segments), "
          "k/N/servers in {3/10/10,2/4/4,1/3/3,3/5/5,2/6/3}, 1..4 published versions plus a competing version with the newest seqnum, final disk state composed per share slot from "
          "newest/older/competing/deleted/bit-flipped (anywhere, signed prefix, block data)/truncated/another file's share, one server may stop answering after the survey; reads with write- and read-cap, "
-         "MODE_READ survey, check with and without verify, repair with and without force, overwrite with failing servers, two concurrent writers")
+         "MODE_READ survey, check with and without verify, repair with and without force, overwrite with failing servers, two concurrent writers, 2..5 modify() calls and reads issued at once through two handles of one client")
 KINDS = {
     "C10": (("unpublished_bytes", "read_failed", "read_hang"), "reads-return-a-published-version-or-an-error-and-succeed-when-k-intact-newest-shares-are-reachable"),
     "C11": (("not_highest", "stopped_early"), "the-survey-calls-the-highest-recoverable-seqnum-best-and-keeps-asking-while-a-newer-version-is-unrecovered"),
     "C12": (("clobbered", "silent_clobber", "publish_hang"), "two-concurrent-writers-never-both-succeed-with-diverging-shares-and-a-version-stays-recoverable"),
     "C14": (("check_failed", "check_wrong", "verify_wrong", "repair_without_force", "repair_changed_contents", "repair_incomplete", "repair_hang"),
             "check-results-equal-the-ground-truth-on-disk-repair-refuses-without-force-and-keeps-the-best-contents-on-N-shares"),
+    "C13": (("two_nodes_one_cap", "lost_update"), "operations-issued-at-once-through-one-client-all-take-effect-exactly-once"),
     "C47": (("unrecoverable_success", "wrong_publish_error", "publish_hang"), "overwrite-succeeds-only-with-k-distinct-new-shares-stored-and-otherwise-fails-with-a-publish-error"),
 }
 
